@@ -602,7 +602,7 @@ class ExecMixin:
                     v = self.load(s, v.cell, v.path)
             # look through adaptors (filter, map, enumerate, ...) to the source
             for _ in range(6):
-                if isinstance(v, VIter) and v.kind in ("filter", "map", "filter_map", "flatten", "copied", "enumerate", "take") and isinstance(v.src, VIter):
+                if isinstance(v, VIter) and v.kind in ("filter", "map", "filter_map", "flatten", "copied", "enumerate", "take", "map_while") and isinstance(v.src, VIter):
                     v = v.src
                 elif isinstance(v, VIter) and v.kind == "zip2":
                     a, b = v.src
@@ -697,6 +697,10 @@ class ExecMixin:
                     else:
                         self.ranges[s] = (0, (1 << 63) - 1)
                 nv = VInt(old.ty if isinstance(old, VInt) else None, Lin.sym(s), None, None, getattr(old, "taint", None))
+                if getattr(old, "taint", None):
+                    if not hasattr(self, "tainted_syms"):
+                        self.tainted_syms = set()
+                    self.tainted_syms.add(s)      # a loop-carried value that started out position dependent
                 entry_vals[(cell, kp)] = old.lin if isinstance(old, VInt) else None
                 self._entry[(lid, (cell, kp))] = old.lin if isinstance(old, VInt) else None
                 H.cells[cell] = self.vset(root, kp, nv)
